@@ -1,7 +1,7 @@
 SPECIFICATION Spec
 CONSTANTS
   Modes = {"stylesheet", "inline"}
-  MaxTop = 2
+  MaxTop = 1
   MaxUnits = 3
   MaxDepth = 2
   MaxFeat = 1
